@@ -155,6 +155,35 @@ def scenario():
     return o
 
 
+def destroy_scenario():
+    """The owner's last reference is dropped from inside one of its handlers (exactly one `d` per history).  Supported only
+    when the owner's emitters hold a reference (fixes/C16_emitter_ref.patch); otherwise the known finding destroy_in_handler."""
+    owner = rng.choice(["pen", "term"])
+    ev = rng.choice(EVENTS[owner])
+    stats["destroy_in_handler"] += 1
+    stats["owner_" + owner] += 1
+    f = lambda: rng.choice([0, 2, 4, 6, 8, 10])
+    o = ["new " + owner]
+    fam = rng.randrange(6)
+    ret = 1 if (owner == "term" and ev >= 2 and rng.random() < 0.4) else 0
+    if fam == 0:      # plain: first, middle or last handler of the walk
+        k = rng.randrange(3)
+        o += ["beh %d 0 %d d" % (k, ret)] + ["bind %d %d %d" % (ev, f(), h) for h in range(3)]
+    elif fam == 1:    # goes on using the owner after dropping the reference
+        more = rng.choice(["e:%d" % ev, "b:%d:%d:1" % (ev, f()), "us", "u:1", "b:0:0:2"])
+        o += ["beh 0 0 %d d %s" % (ret, more), "bind %d %d 0" % (ev, f()), "bind %d %d 1" % (ev, f())]
+    elif fam == 2:    # from a nested emission
+        o += ["beh 0 0 0 e:%d" % ev, "beh 1 0 0", "beh 1 1 %d d" % ret, "bind %d %d 0" % (ev, f()), "bind %d %d 1" % (ev, f()), "bind 0 %d 2" % f()]
+    elif fam == 3:    # from an unbind notification under a walker
+        o += ["beh 0 0 0 u:1", "beh 1 0 0 d", "bind %d %d 0" % (ev, f()), "bind %d %d 1" % (ev, 2 | f()), "bind %d %d 2" % (ev, f())]
+    elif fam == 4:    # with tombstones pending: unbind others, then drop the reference
+        o += ["beh 0 0 %d u:1 u:2 d" % ret, "bind %d %d 0" % (ev, f()), "bind %d %d 1" % (ev, 2 | f()), "bind %d %d 2" % (ev, 6), "bind %d %d 1" % (ev, f())]
+    else:             # one-shot handler drops it
+        o += ["beh 0 0 %d d" % ret, "bind %d %d 1" % (ev, f()), "bind %d %d 0" % (ev, 8 | f()), "bind %d %d 1" % (ev, 4)]
+    o += ["emit %d" % ev, "emit %d" % ev]
+    return o
+
+
 def exhaustive():
     """Every history of the shape
          new pen; [beh 0 0 0 A1 [A2]]; bind 1 F1 0; bind 1 F2 1; [bind 1 F3 0]; OP; emit 1; emit 1; destroy
@@ -199,15 +228,21 @@ bound = None
 if a.tier == "exhaustive":
     bound = exhaustive()
 else:
-    n_hist = 1500 if a.tier == "quick" else 6000
+    n_hist = 1500 if a.tier == "quick" else 10000
+    tail_histories = []
     for i in range(n_hist):
         r = rng.random()
-        if r < 0.15:
+        if r < 0.004:
+            tail_histories.append(destroy_scenario())   # kept together at the end: on a tree without the emitter
+            continue                                    # references they abort their batch of 64 histories
+        elif r < 0.15:
             h = history("linear")
         elif r < 0.75:
             h = history("reentrant")
         else:
             h = scenario()
+        lines.extend(h)
+    for h in tail_histories:
         lines.extend(h)
     stats["histories"] = n_hist
 
